@@ -229,6 +229,7 @@ func TestReplay_Q(t *testing.T) {
 		}
 	}
 	replayC05Big()
+	replayC05Wait()
 	replayInterleaved()
 	for _, rf := range append(verifkit.ReplayFiles("TestProp_C01_StoreCrash"), verifkit.ReplayFiles("TestProp_C15_BatchCrash")...) {
 		var c C01Case
